@@ -5,7 +5,7 @@
 //! `smith_response` : `<null> <min> <max> <streams> <opname> <schema-src-hex> <doc-src-hex> <schema-dump> <ast-dump>`
 //!                    -> one result per stream joined by `;` : `ok:<json>` | `exhausted` | `emptychoose` | `panic`,
 //!                    then ` oracle=ok` | ` oracle=bad:<stream index>:<why>`.
-//! `smith_class`    : `<schema-src-hex> <doc-src-hex> <schema-dump> <ast-dump>` -> `cov=<0|1>` : the known-finding class
+//! `smith_class`    : `<opname> <schema-src-hex> <doc-src-hex> <schema-dump> <ast-dump>` -> `cov=<0|1> typed=1` : the known-finding class
 //!                    (a selected field whose definition on an implementing object type differs from the
 //!                    definition on the interface it is selected under), evaluated on the real data structures.
 //! The randomness source is a replay of the case's choice stream (`Replay`), consumed exactly as the model's
@@ -496,11 +496,13 @@ fn cov_set(schema: &Schema, set: &apollo_compiler::executable::SelectionSet) -> 
 
 fn smith_class(line: &str) -> String {
     let p: Vec<&str> = line.split(' ').collect();
-    let (schema, doc) = match load(p[0], p[1]) {
+    let (schema, doc) = match load(p[1], p[2]) {
         Ok(x) => x,
         Err(e) => return format!("invalid-input {}", hex(&e)),
     };
     let cov = doc.operations.iter().any(|op| cov_set(&schema, &op.selection_set))
         || doc.fragments.values().any(|f| cov_set(&schema, &f.selection_set));
-    format!("cov={}", cov as u8)
+    // `typed=1`: the inputs went through the real validator; the model evaluates the decidable hypotheses of
+    // C33_no_panic on the dumps and must agree
+    format!("cov={} typed=1", cov as u8)
 }
